@@ -460,6 +460,48 @@ impl Model {
     }
 }
 
+impl Model {
+    /// Probabilities on the path of a new match (dist, len) in the current state: (node, prob of bit 0 /2048, bit).
+    pub fn debug_match_path(&self, dist: u32, len: u32) -> Vec<(String, u16, u32)> {
+        let mut v = Vec::new();
+        let ps = self.win.len() & ((1usize << self.pb) - 1);
+        v.push(("is_match".to_string(), self.is_match[self.state][ps], 1));
+        v.push(("is_rep".to_string(), self.is_rep[self.state], 0));
+        let l = len - 2;
+        if l >= 16 {
+            v.push(("choice".into(), self.len.choice, 1));
+            v.push(("choice2".into(), self.len.choice2, 1));
+            let mut m = 1usize;
+            for i in (0..8).rev() {
+                let b = ((l - 16) >> i) & 1;
+                v.push((format!("high[{}]", m), self.len.high[m], b));
+                m = (m << 1) | b as usize;
+            }
+        }
+        let d = dist - 1;
+        let slot = dist_slot(d);
+        let ls = std::cmp::min(l, 3) as usize;
+        let mut m = 1usize;
+        for i in (0..6).rev() {
+            let b = (slot >> i) & 1;
+            v.push((format!("slot[{}]", m), self.slot[ls][m], b));
+            m = (m << 1) | b as usize;
+        }
+        if slot >= 14 {
+            let nd = (slot >> 1) - 1;
+            let base = (2 | (slot & 1)) << nd;
+            let rem = d - base;
+            let mut m = 1usize;
+            for i in 0..4 {
+                let b = (rem >> i) & 1;
+                v.push((format!("align[{}]", m), self.align[m], b));
+                m = (m << 1) | b as usize;
+            }
+        }
+        v
+    }
+}
+
 /// Result of encoding a whole program.
 pub struct Encoded {
     /// raw LZMA payload (range coder bytes incl. 5-byte flush)
